@@ -132,6 +132,8 @@ def space(tier):
         place = "alone"
         if version == 3:
             place = ["alone", "before_good", "after_good"][(k // (2 * len(OPS))) % 3]
+            if base == "state" and n >= 15 and place == "after_good":
+                place = "before_good"      # a state body of >= 16 bytes is a decodable (legacy short) report
         edit = [["trunc", n]] + ([["nomsgid"]] if nomsgid else [])
         return {"config": cfg(version), "target": opname, "which": rng.randrange(NREQ[opname]),
                 "app": {"base": base, "edit": edit, "place": place}}
